@@ -116,6 +116,8 @@ def run_case(case, keep_log=False):
     refinements = 0
     try:
         for i, op in enumerate(case["ops"]):
+            if bm.apply_env(op):
+                continue
             td0 = getattr(built.interval, "_tree_dt", None) if built.interval is not None else None
             if op["op"] == "point":
                 t = xf(op["t"])
@@ -155,6 +157,8 @@ def run_case(case, keep_log=False):
         probes["truncated_designed_bound"] = 1
     except Violation as v:
         violation = v.to_json()
+    finally:
+        bm.restore_env()
     fired = dict(built.plan.fired)
     cs = cfg["cache_size"]
     if cs is not None and cs <= 3:
